@@ -1,14 +1,350 @@
-//! Specifications of the fault-injecting and metamorphic properties.
-use crate::check::PropSpec;
+//! Specifications and run functions of the fault-injecting and metamorphic properties.
+use serde_json::json;
 
-pub const SPECS: &[PropSpec] = &[];
+use crate::check::{Found, Merged, PropSpec, RunReport, Tier};
+use crate::crash::{enumerate_points, point_signature, powerloss_image, test_c03, test_process_crash, Cont, CrashStats, ImageWalker, Level, Matched, Point};
+use crate::fault::{CrashPoint, Fault};
+use crate::gen::{generate, Profile};
+use crate::prng::{mix, Rng};
+use crate::props::{sample_of, state_signature};
+use crate::simfs::Eff;
 
-use crate::check::{Merged, RunReport, Tier};
+pub const SPECS: &[PropSpec] = &[
+    PropSpec { id: "C02", level: "fault_enumeration", quick_runs: 2_500, thorough_runs: 40_000,
+        rule: "per seeded history (flush-per-call policies): crash points = every effect boundary at which the image or the in-flight op changes + torn-write offsets (thorough: all boundaries, every byte of writes <= 512 B, boundary-biased + 64 random offsets above; quick: a seeded sample of 40 points per history that always contains every create/set_len/unlink boundary); each image is recovered by the real open, matched against Exact(k) | Exact(k+1) | Partial(k, op), continued for 3-10 ops in lock-step with the model, cleanly restarted, and for recoveries that wrote, crashed a second time. Non-trivial: crash strictly inside a mutating call (torn write or after its first effect) with >= 1 completed call before. Distinct: hash of (effect class hit, in-flight op kind, torn-offset class, write offset/size class, matched state kind, files, policy).",
+        assumptions: &["process-crash model: effects reach the OS in program order, user-space buffers are lost", "crash images are rebuilt from the effect trace of an uninterrupted execution (behaviour before the crash is by construction that of the fault-free run)"] },
+    PropSpec { id: "C03", level: "fault_enumeration", quick_runs: 2_500, thorough_runs: 40_000,
+        rule: "per seeded history (all policies, explicit persists, clock jumps): every crash boundary (as C02) under the process-crash model and under the power-loss model (durable view + seeded subset of unsynced effects: 3 masks per point in quick, 10 in thorough, incl. the extremes); oracle = persisted-superset PS(P) with P the last obliging call (create/delete any policy, persist, every mutating call under Always). Non-trivial: >=1 completed call after P was lost or in flight at the crash and the history had rolled over, or the point directly follows an unlink. Distinct: signature as C02 x loss model.",
+        assumptions: &["power-loss model is POSIX-permissive: unsynced data lost per 512-byte sector, each unsynced create/unlink/set_len independently kept or lost", "fdatasync makes content and length of that file durable, directory fsync makes names durable"] },
+    PropSpec { id: "C04", level: "exploration", quick_runs: 2_000, thorough_runs: 30_000,
+        rule: "idle-queue histories (1-2 queues emptied or left idle while others roll and GC) under flush-per-call policies; model-independent high-water-mark monitor over every returned/observed/truncated-to position, live, across restarts and after recovery from sampled crash points (then an append on every surviving queue). Non-trivial: an append to a queue all of whose earlier entries lived in files that no longer exist, or a post-crash append. Distinct: signature as C02.",
+        assumptions: &["process-crash model as C02"] },
+    PropSpec { id: "C12", level: "fault_enumeration", quick_runs: 2_500, thorough_runs: 40_000,
+        rule: "batch-heavy histories (2-50 records, totals 30 B .. > 2 files, alignment targeting); crash points inside every batch append (as C02; process crash, plus power loss under Always(FlushAndFsync)) and single-frame damage of every frame of batch entries (header and payload); oracle: recovered records of a batch are all, none, or all minus a leading part targeted by a truncate/delete. Non-trivial: batch spans >= 2 frames and the fault lands strictly inside its byte range. Distinct: signature as C02 / damaged field class.",
+        assumptions: &["as C02 and C08"] },
+    PropSpec { id: "C11", level: "fault_enumeration", quick_runs: 1_500, thorough_runs: 30_000,
+        rule: "per seeded history: the image left by a clean drop (1-6 WAL files); fault-free recovery is traced and for EVERY directory-listing / file_type / open / seek / read call it makes an error is injected (thorough: x {EIO, EACCES, ENOENT, EMFILE} x {transient, persistent} x for reads {0, 1, 16384, len-1} bytes delivered first; quick: all calls x both persistence kinds x one seeded errno x two consumed values). Oracle: open returns within (fault-free calls + 50) fs calls with Err(IoError). Non-trivial: the failing call concerns a non-first WAL file or is a read after the first block. Distinct: hash of (call class, file ordinal, errno, persistence, consumed class, files in image).",
+        assumptions: &["write-path errors (set_len, write, fsync, unlink) are not injected: no listed property covers them", "Interrupted is a buggify kind (std retries it), UnexpectedEof is a short file (C10)"] },
+];
 
-pub fn runner(_prop: &str) -> Option<fn(&str, u64, usize, Tier) -> RunReport> {
-    None
+pub fn runner(prop: &str) -> Option<fn(&str, u64, usize, Tier) -> RunReport> {
+    match prop {
+        "C02" | "C04" | "C12" => Some(run_crash),
+        "C03" => Some(run_c03),
+        "C11" => Some(run_c11),
+        _ => None,
+    }
 }
 
 pub fn extra_evidence(_prop: &str, _m: &Merged) -> serde_json::Value {
-    serde_json::json!({})
+    json!({})
+}
+
+fn crash_point_of(d: &crate::run::Driver, p: &Point, powerloss: Option<u64>) -> CrashPoint {
+    CrashPoint { op: p.b.min(d.steps.len()), eff_in_op: p.eff_in_op, byte: p.byte, powerloss }
+}
+
+/// Chooses the crash points of a run: all of them (thorough) or a seeded sample that always
+/// contains the boundaries around create / set_len / unlink effects (quick).
+fn select_points(d: &crate::run::Driver, pts: Vec<Point>, thorough: bool, quota: usize, rng: &mut Rng) -> Vec<Point> {
+    if thorough || pts.len() <= quota {
+        return pts;
+    }
+    let fs = d.world.fs.borrow();
+    let mut keep: Vec<bool> = pts
+        .iter()
+        .map(|p| {
+            if p.byte.is_some() {
+                return false;
+            }
+            let here = fs.trace.get(p.idx).map(|e| matches!(e.eff, Eff::Create { .. } | Eff::SetLen { .. } | Eff::Unlink { .. })).unwrap_or(true);
+            let prev = p.idx > 0 && matches!(fs.trace[p.idx - 1].eff, Eff::Create { .. } | Eff::SetLen { .. } | Eff::Unlink { .. });
+            here || prev
+        })
+        .collect();
+    let forced = keep.iter().filter(|&&k| k).count();
+    let mut rest: Vec<usize> = (0..pts.len()).filter(|&i| !keep[i]).collect();
+    rng.shuffle(&mut rest);
+    for &i in rest.iter().take(quota.saturating_sub(forced)) {
+        keep[i] = true;
+    }
+    pts.into_iter().zip(keep).filter(|(_, k)| *k).map(|(p, _)| p).collect()
+}
+
+pub fn run_crash(prop: &str, seed: u64, index: usize, tier: Tier) -> RunReport {
+    let thorough = tier == Tier::Thorough;
+    let profile = match prop {
+        "C04" => Profile::IdleQueues,
+        "C12" => Profile::Batches,
+        _ => Profile::AlwaysFlush,
+    };
+    let (case, d) = generate(seed, profile, false, 0);
+    let mut rep = RunReport::default();
+    rep.digest = d.digest.0;
+    rep.probes = d.probes.clone();
+    rep.states.push(state_signature(&d));
+    if !d.conformance_ok() {
+        rep.count("histories_skipped_conformance_broken", 1);
+        rep.evaluations = 1;
+        return rep;
+    }
+    if prop == "C04" {
+        // the live monitor's verdict on the fault-free history
+        if let Some(f) = d.first_failure("C04") {
+            let mut c = case.clone();
+            c.ops.truncate(f.op_index + 1);
+            rep.found.push(Found { prop: prop.to_string(), clause: f.clause.clone(), detail: f.detail.clone(), case: c, fault: Fault::None });
+        }
+        if d.probes.c04_appends_after_files_gone > 0 {
+            rep.signatures.push(crate::props::case_signature(&case, &d));
+        }
+        rep.evaluations += 1;
+    }
+    let mut rng = Rng::new(mix(&[seed, 0xC2A5]));
+    let pts = enumerate_points(&d, thorough, &mut rng);
+    rep.count("crash_points_enumerated", pts.len() as u64);
+    let quota = match prop {
+        "C04" => 16,
+        _ => 40,
+    };
+    let pts = select_points(&d, pts, thorough, quota, &mut rng);
+    let mut stats = CrashStats::default();
+    let trace_len = d.world.trace_len();
+    let fs = d.world.fs.borrow();
+    let mut walker = ImageWalker::new(&fs.trace, &fs.bases[0].1);
+    let mut digest = crate::prng::Digest::new();
+    let mut sample_done = false;
+    for (pi, p) in pts.iter().enumerate() {
+        let image = walker.image_at(p.idx, p.byte);
+        let cont_seed = mix(&[seed, p.idx as u64, p.byte.map(|b| b as u64 + 1).unwrap_or(0)]);
+        let o = test_process_crash(&d, &case, p.b, &image, Cont::Generate(cont_seed), &mut stats, None);
+        rep.evaluations += 1;
+        digest.u64(o.failures.len() as u64);
+        digest.u64(match &o.matched { Some(Matched::Exact(j)) => *j as u64, Some(Matched::Partial) => 1 << 40, _ => 1 << 41 });
+        let inside = p.b >= 2 && p.b < d.steps.len() && (p.byte.is_some() || p.eff_in_op > 0) && p.idx < trace_len;
+        if inside {
+            rep.signatures.push(point_signature(&d, p, &o.matched));
+        }
+        // probes on where the crash fell
+        if let Some(e) = fs.trace.get(p.idx) {
+            match &e.eff {
+                Eff::SetLen { .. } if p.idx > 0 && matches!(fs.trace[p.idx - 1].eff, Eff::Create { .. }) => rep.count("crash_between_create_and_setlen", 1),
+                Eff::Unlink { .. } if p.idx > 0 && matches!(fs.trace[p.idx - 1].eff, Eff::Unlink { .. }) => rep.count("crash_between_unlinks", 1),
+                Eff::Unlink { .. } => rep.count("crash_before_first_unlink", 1),
+                Eff::Write { .. } if p.byte.map(|n| n < 7).unwrap_or(false) => rep.count("torn_header", 1),
+                Eff::Write { .. } if p.byte.is_some() => rep.count("torn_payload", 1),
+                _ => {}
+            }
+        }
+        for f in o.failures.iter().filter(|f| f.prop == prop) {
+            rep.found.push(Found {
+                prop: prop.to_string(), clause: f.clause.clone(), detail: f.detail.clone(), case: case.clone(),
+                fault: Fault::Crash { at: crash_point_of(&d, p, None), second: None, cont: o.cont_used.clone() },
+            });
+        }
+        // second crash inside the recovery's own writes
+        if prop == "C02" && !o.recovery_mutations.is_empty() && o.failures.is_empty() {
+            let mut idxs = o.recovery_mutations.clone();
+            idxs.push(idxs.last().unwrap() + 1);
+            let take = if thorough { idxs.len() } else { 2 };
+            rng.shuffle(&mut idxs);
+            for &ridx in idxs.iter().take(take) {
+                let o2 = test_process_crash(&d, &case, p.b, &image, Cont::Generate(cont_seed ^ ridx as u64), &mut stats, Some((ridx, None)));
+                rep.evaluations += 1;
+                rep.count("crash_in_recovery", 1);
+                for f in o2.failures.iter().filter(|f| f.prop == prop) {
+                    rep.found.push(Found {
+                        prop: prop.to_string(), clause: f.clause.clone(), detail: f.detail.clone(), case: case.clone(),
+                        fault: Fault::Crash { at: crash_point_of(&d, p, None), second: Some((ridx, None)), cont: o2.cont_used.clone() },
+                    });
+                }
+            }
+        }
+        if index < 3 && !sample_done && pi == pts.len() / 2 {
+            sample_done = true;
+            let mut s = sample_of(&case, &d, "held");
+            s["crash"] = json!({"trace_index": p.idx, "byte": p.byte, "in_flight_op": p.b, "effect": fs.trace.get(p.idx).map(|e| e.eff.short()), "recovered_as": format!("{:?}", o.matched), "continuation": o.cont_used.iter().map(|x| x.short()).collect::<Vec<_>>()});
+            rep.sample = Some(s);
+        }
+        if rep.found.len() > 8 {
+            break;
+        }
+    }
+    rep.digest ^= digest.0;
+    rep.count("recovered_exact_before", stats.recovered_exact_before);
+    rep.count("recovered_exact_after", stats.recovered_exact_after);
+    rep.count("recovered_partial_truncate_or_delete", stats.recovered_partial);
+    rep.count("continuations_run", stats.continuations);
+    rep.count("recoveries_that_wrote", stats.recovery_wrote);
+    rep.count("fault_process_crash", pts.len() as u64);
+    rep
+}
+
+pub fn run_c03(prop: &str, seed: u64, index: usize, tier: Tier) -> RunReport {
+    let thorough = tier == Tier::Thorough;
+    let (case, d) = generate(seed, Profile::AllPolicies, false, 0);
+    let mut rep = RunReport::default();
+    rep.digest = d.digest.0;
+    rep.probes = d.probes.clone();
+    rep.states.push(state_signature(&d));
+    rep.sim_clock_ns = d.world.clock_ns - 1_000_000_000;
+    if !d.conformance_ok() {
+        rep.count("histories_skipped_conformance_broken", 1);
+        rep.evaluations = 1;
+        return rep;
+    }
+    let mut rng = Rng::new(mix(&[seed, 0xC3]));
+    let pts = enumerate_points(&d, false, &mut rng);
+    rep.count("crash_points_enumerated", pts.len() as u64);
+    // torn writes are sampled, boundaries are all kept
+    let pts: Vec<Point> = if thorough { pts } else { select_points(&d, pts, false, 48, &mut rng) };
+    let fs = d.world.fs.borrow();
+    let mut walker = ImageWalker::new(&fs.trace, &fs.bases[0].1);
+    let n_masks = if thorough { 10 } else { 3 };
+    let mut digest = crate::prng::Digest::new();
+    let mut sample_done = false;
+    for (pi, p) in pts.iter().enumerate() {
+        let where_ = format!("crash at trace index {} (byte {:?}) while op {} was in flight", p.idx, p.byte, p.b);
+        // process crash
+        let image = walker.image_at(p.idx, p.byte);
+        let (fails, prefix) = test_c03(&d, &case, p.b, &image, Level::Proc, &where_);
+        rep.evaluations += 1;
+        rep.count("fault_process_crash", 1);
+        if !prefix && fails.is_empty() {
+            rep.count("nonprefix_states_process_crash", 1);
+        }
+        digest.u64(fails.len() as u64 + prefix as u64 * 2);
+        for f in fails {
+            rep.found.push(Found { prop: prop.to_string(), clause: f.clause, detail: f.detail, case: case.clone(), fault: Fault::Crash { at: crash_point_of(&d, p, None), second: None, cont: vec![] } });
+        }
+        let after_unlink = p.idx > 0 && matches!(fs.trace[p.idx - 1].eff, Eff::Unlink { .. });
+        if after_unlink {
+            rep.count("crash_directly_after_unlink", 1);
+        }
+        let p_proc = crate::crash::persist_point(&d, p.b, Level::Proc);
+        let unpersisted_later = p_proc.map(|pp| pp + 1 < p.b).unwrap_or(p.b > 1);
+        if (unpersisted_later && d.probes.rollover > 0) || after_unlink {
+            rep.signatures.push(point_signature(&d, p, &None));
+        }
+        // power loss
+        for k in 0..n_masks {
+            let mseed = mix(&[seed, p.idx as u64, p.byte.map(|b| b as u64 + 1).unwrap_or(0), k]) & !3 | (k.min(3));
+            let mseed = if k < 4 { mseed } else { mseed | 2 };
+            let pimage = powerloss_image(&fs.trace, &fs.bases[0].1, p.idx, p.byte, mseed);
+            let (fails, prefix) = test_c03(&d, &case, p.b, &pimage, Level::Power, &where_);
+            rep.evaluations += 1;
+            rep.count("fault_power_loss", 1);
+            if !prefix && fails.is_empty() {
+                rep.count("nonprefix_states_power_loss", 1);
+            }
+            digest.u64(fails.len() as u64 + prefix as u64 * 2);
+            if (unpersisted_later && d.probes.rollover > 0) || after_unlink {
+                rep.signatures.push(point_signature(&d, p, &None) ^ 0x9090 ^ (k.min(3)));
+            }
+            for f in fails {
+                rep.found.push(Found { prop: prop.to_string(), clause: f.clause, detail: f.detail, case: case.clone(), fault: Fault::Crash { at: crash_point_of(&d, p, Some(mseed)), second: None, cont: vec![] } });
+            }
+        }
+        if index < 3 && !sample_done && pi == pts.len() / 2 {
+            sample_done = true;
+            let mut s = sample_of(&case, &d, "held");
+            s["crash"] = json!({"trace_index": p.idx, "byte": p.byte, "in_flight_op": p.b, "effect": fs.trace.get(p.idx).map(|e| e.eff.short()), "persist_point_process_crash": p_proc, "persist_point_power_loss": crate::crash::persist_point(&d, p.b, Level::Power)});
+            rep.sample = Some(s);
+        }
+        if rep.found.len() > 8 {
+            break;
+        }
+    }
+    rep.digest ^= digest.0;
+    rep
+}
+
+pub fn run_c11(prop: &str, seed: u64, index: usize, tier: Tier) -> RunReport {
+    use crate::ioerr::{baseline_calls, final_image, inject, injectable, Verdict, ERRNOS};
+    use crate::simfs::{Class, IoFault};
+    let thorough = tier == Tier::Thorough;
+    let profile = if seed % 3 == 0 { Profile::Rolling } else { Profile::Small };
+    let (case, d) = generate(seed, profile, seed % 5 == 0, 0);
+    let mut rep = RunReport::default();
+    rep.digest = d.digest.0;
+    rep.probes = d.probes.clone();
+    rep.states.push(state_signature(&d));
+    drop(d);
+    let Some((image, names, policy)) = final_image(&case) else {
+        rep.count("histories_skipped_conformance_broken", 1);
+        rep.evaluations = 1;
+        return rep;
+    };
+    let Some(calls) = baseline_calls(&image, &names, policy, &case.knobs) else {
+        rep.count("baseline_recovery_failed", 1);
+        rep.evaluations = 1;
+        return rep;
+    };
+    let n_files = image.keys().filter(|n| crate::simfs::is_wal_name(n)).count();
+    let mut first_file: Option<String> = None;
+    let mut reads_seen = 0usize;
+    let mut rng = Rng::new(mix(&[seed, 0xC11]));
+    let mut digest = crate::prng::Digest::new();
+    for c in calls.iter().filter(|c| injectable(c)) {
+        if first_file.is_none() && !c.target.is_empty() && c.class != Class::Stat {
+            first_file = Some(c.target.clone());
+        }
+        if c.class == Class::Read {
+            reads_seen += 1;
+        }
+        let errnos: Vec<i32> = if thorough { ERRNOS.to_vec() } else { vec![*rng.pick(&ERRNOS)] };
+        let consumed: Vec<usize> = if c.class == Class::Read {
+            if thorough { vec![0, 1, 16384, c.len.saturating_sub(1)] } else { vec![0, *rng.pick(&[1usize, 16384, c.len.saturating_sub(1).max(1)])] }
+        } else {
+            vec![0]
+        };
+        for &errno in &errnos {
+            for persistent in [false, true] {
+                for &cons in &consumed {
+                    let f = IoFault { at: c.index, errno, persistent, consumed: cons };
+                    let v = inject(&image, &names, policy, &case.knobs, calls.len(), &f);
+                    rep.evaluations += 1;
+                    rep.count(if persistent { "fault_ioerr_persistent" } else { "fault_ioerr_transient" }, 1);
+                    rep.count(&format!("fault_ioerr_on_{:?}", c.class), 1);
+                    digest.u64(match &v { Verdict::ReportedIo => 1, Verdict::NotFired => 2, Verdict::Bad(..) => 3 });
+                    let nontrivial = (c.class == Class::Read && reads_seen > 1) || (!c.target.is_empty() && first_file.as_deref() != Some(&c.target) && c.class != Class::Stat);
+                    if nontrivial {
+                        let mut dg = crate::prng::Digest::new();
+                        dg.u64(c.class as u64);
+                        dg.u64(errno as u64);
+                        dg.u64(persistent as u64);
+                        dg.u64(match cons { 0 => 0, 1 => 1, 16384 => 2, _ => 3 });
+                        dg.u64(n_files as u64);
+                        dg.u64(reads_seen.min(12) as u64);
+                        rep.signatures.push(dg.0);
+                    }
+                    match v {
+                        Verdict::NotFired => rep.count("fault_not_fired", 1),
+                        Verdict::ReportedIo => rep.count("reported_io_error", 1),
+                        Verdict::Bad(clause, detail) => {
+                            if rep.found.len() < 8 {
+                                rep.found.push(Found {
+                                    prop: prop.to_string(), clause: clause.to_string(),
+                                    detail: format!("errno {} ({}) at recovery call {} {:?}({}): {}", errno, if persistent { "persistent" } else { "transient" }, c.index, c.class, c.target, detail),
+                                    case: case.clone(),
+                                    fault: Fault::IoErr { call: c.index, errno, persistent, consumed: cons },
+                                });
+                            }
+                        }
+                    }
+                }
+            }
+        }
+    }
+    rep.digest ^= digest.0;
+    if index < 3 {
+        rep.sample = Some(json!({
+            "history": case.ops.iter().take(30).map(|o| o.short()).collect::<Vec<_>>(),
+            "wal_files_in_image": n_files,
+            "recovery_calls": calls.iter().take(40).map(|c| format!("{:?}({})", c.class, c.target)).collect::<Vec<_>>(),
+            "injected": "every injectable call x errno x {transient, persistent} x consumed",
+            "verdict": if rep.found.is_empty() { "held" } else { "VIOLATION" },
+        }));
+    }
+    rep
 }
